@@ -106,7 +106,7 @@ REGISTRY = {
         "trust": "Real time: bounds are upper bounds with seconds of slack and leak detectors poll for 2 s; handlers return (as the statement assumes).",
         "technique": "property-based testing (rapid): generated concurrent API programs x peer behaviours with leak detectors (goroutine dump, socket registry, dial log)",
         "tests": [
-            {"name": "TestC10Lifecycle", "shards": 8, "shards_thorough": 16, "crash_is_violation": True},
+            {"name": "TestC10Lifecycle", "shards": 8, "shards_thorough": 8, "crash_is_violation": True},
         ],
         "require": {"c10:reopened": 48},
     },
@@ -140,7 +140,7 @@ REGISTRY = {
         "trust": "Real time with T1 50 ms / T2 150 ms: only content, order, counts and generous upper bounds are asserted, so scheduling jitter can add retries but not false alarms. The length byte is never corrupted (E4 does not guarantee detection there).",
         "technique": "property-based testing (rapid): generated fault plans x concurrent send programs through an E4-aware fault-injecting proxy; exactly-once ledger oracle",
         "tests": [
-            {"name": "TestC18ExactlyOnce", "shards": 8, "shards_thorough": 16, "crash_is_violation": True},
+            {"name": "TestC18ExactlyOnce", "shards": 8, "shards_thorough": 8, "crash_is_violation": True},
         ],
         "require": {"c18:contention": 71},
     },
@@ -171,7 +171,7 @@ REGISTRY = {
         "trust": "Binary built with -race (a report fails the run); DecodeOwned / DecodeOwnedHSMSPayload transfer ownership and are deliberately not scribbled (documented contract).",
         "technique": "property-based testing (rapid) under the race detector: observation-snapshot metamorphic check over caller-side mutations",
         "tests": [
-            {"name": "TestC12Immutable", "shards": 8, "shards_thorough": 16, "race": True, "crash_is_violation": True},
+            {"name": "TestC12Immutable", "shards": 8, "shards_thorough": 16, "race": True, "crash_is_violation": True, "timeout_thorough": 7200},
         ],
         "require": {"c12:constructed": 222, "c12:counted:false": 165, "c12:counted:true": 155, "c12:decoded": 97},
     },
